@@ -118,24 +118,23 @@ are four moves and no other:
   token `k` (a scalar or id: not `{`, `}`, `=`, not an rgb block); afterwards a value is owed;
 * `ghost`: an adjacent `{ }` pair is read and not recorded; no value is owed (tape.rs:549, state `Key`);
 * `rewrite`: an `=` is read and not recorded; no value is owed; the tape ends with the `{` of a container, then
-  `n ≥ 1` empty containers, then at most one more plain tape token (`odd`), then the key token `last`; the
-  empty containers and `odd` are removed (the container becomes an object with key `last`); afterwards a
-  value is owed.
+  `n ≥ 1` empty containers, then at most one more tape token (`odd`: a scalar, an id or an rgb block —
+  `isVal`; never `{`, `}` or `=`), then the key token `last`; the empty containers and `odd` are removed
+  (the container becomes an object with key `last`); afterwards a value is owed.
 
 What the relation does NOT express (it is an **upper bound on what may be dropped** in these respects, because
 the lexeme content of the tape does not show them): whether the innermost open container is an object or an
 array, and where a `MixedContainer` marker stands (`flatten .mixed = []`).  So `eqAfterKey` and `ghost` are
 allowed behind any key token / at any point where no value is owed, although the parser performs them only in
-`KeyValueSeparator` / `OpenSecond`, respectively `Key`, i.e. in key position of an object or of the root; and
-`odd` may be the content of an `Equal` token, which the parser never leaves there (the marker would stand
-before it).  The structural side of these facts is `C06_bin_object_pairs`. -/
+`KeyValueSeparator` / `OpenSecond`, respectively `Key`, i.e. in key position of an object or of the root.
+The structural side of these facts is `C06_bin_object_pairs`. -/
 inductive Move : Bool → List Lx → List Lx → List Lx → Option (List Lx) → Bool → Prop
   | keep (p : Bool) (A L1 : List Lx) : L1 ≠ [] → Move p A L1 (A ++ L1) none false
   | eqAfterKey (A : List Lx) (k : BTok) : k.isKey = true →
       Move false (A ++ [.tok k]) [.equal] (A ++ [.tok k]) none true
   | ghost (A : List Lx) : Move false A [.open_, .close] A none false
   | rewrite (A : List Lx) (n : Nat) (odd : List Lx) (last : BTok) : 1 ≤ n → last.isKey = true →
-      (odd = [] ∨ ∃ y : BTok, odd = flatten y ∧ y.isPlain = true) →
+      (odd = [] ∨ ∃ y : BTok, odd = flatten y ∧ y.isVal = true) →
       Move false (A ++ [.open_] ++ pairsLex n ++ odd ++ flatten last) [.equal] (A ++ [.open_] ++ flatten last)
         (some odd) true
 
